@@ -10,6 +10,7 @@ def tasks(tier, seed):
     import c06
     ts += [t for t in c06.tasks(tier, seed)[0] if t.tid == 'probe.h_write_session']
     ts += SC.session_tasks(tier, ['CHECK_C01'], 'session', ('C01:',))
+    ts += SC.session_tasks(tier, ['CHECK_C01'], 'session', ('C01:',), slow=True)
     ts += SC.big_session_tasks(tier, 'session', ('C01:',))
     ts += CC.big_tasks(tier, kinds={'roundtrip', 'idempotence', 'uncaught_exception', 'terminate'})
     meta = dict(
